@@ -28,6 +28,12 @@ func init() {
 			Calls: []string{"GroupVersionResource", "RetryOnConflict", "Get", "IsNotFound", "filterFunc", "DeepEqual", "Update", "SetResourceVersion"}},
 		skelTarget{Name: "ObjectPatcher.executeCreateOperation", File: "pkg/kube/object_patch/patch.go", Recv: "ObjectPatcher", Func: "executeCreateOperation",
 			Calls: []string{"toUnstructured", "GroupVersionResource", "Create", "IsAlreadyExists", "RetryOnConflict", "Get", "DeepCopy", "SetResourceVersion", "Update"}},
+		// the other two executors: each resolves the resource for the apiVersion and kind of ITS operation
+		// (Model/Patch, section "addressing": `targets` = one GroupVersionResource lookup per operation)
+		skelTarget{Name: "ObjectPatcher.executePatchOperation", File: "pkg/kube/object_patch/patch.go", Recv: "ObjectPatcher", Func: "executePatchOperation",
+			Calls: []string{"convertPatchToBytes", "GroupVersionResource", "Patch", "IsNotFound"}},
+		skelTarget{Name: "ObjectPatcher.executeDeleteOperation", File: "pkg/kube/object_patch/patch.go", Recv: "ObjectPatcher", Func: "executeDeleteOperation",
+			Calls: []string{"GroupVersionResource", "Delete", "IsNotFound", "PollUntilContextTimeout", "Get"}},
 		skelTarget{Name: "ShellOperator.handleRunHook", File: "pkg/shell-operator/operator.go", Recv: "ShellOperator", Func: "handleRunHook",
 			Calls: []string{"Run", "ParseOperations", "ExecuteOperations", "GetPatchStatusOperationsOnHookError", "SendBatch", "SetProp"}},
 		// the patch file of a run: a name with a fresh uuid per call, written empty (Model/Patch: FStep.prepare,
